@@ -50,7 +50,7 @@ def st_schedule(draw):
     ops = []
     n = draw(st.integers(6, 30))
     for _ in range(n):
-        k = draw(st.integers(0, 19))
+        k = draw(st.integers(0, 21))
         c = draw(st.integers(0, 3))
         if k <= 4:
             # index -1 stands for an unusable filter ({"kinds": "x"}); a REQ made only of those (or of none)
@@ -78,8 +78,24 @@ def st_schedule(draw):
             ops.append(["release", draw(st.integers(0, 2))])
         elif k == 16:
             ops.append(["pump", draw(st.integers(1, 3))])
+        elif k == 20:
+            ops.append(["qpark", draw(st.booleans())])
+        elif k == 21:
+            ops.append(["qrelease", draw(st.integers(0, 2))])
         else:
             ops.append(["yield", draw(st.integers(1, 6))])
+    if draw(st.integers(0, 3)) == 0:
+        # motif: an event is accepted while the stored query of a freshly opened subscription is still running (LMDB:
+        # the query job is held back), then the query completes before / after the writer applied the event
+        motif = [["qpark", True],
+                 ["req", draw(st.integers(0, 3)), draw(st.sampled_from(SUBS)), [draw(st.integers(0, len(FILTERS) - 1))], 0],
+                 ["yield", draw(st.integers(3, 6))],
+                 ["event", draw(st.integers(0, 3)), draw(st.sampled_from([1, 1, 2])), draw(st.integers(0, 1)),
+                  draw(st.integers(0, len(TAGSETS) - 1)), "ok", 0],
+                 ["yield", draw(st.integers(3, 6))]]
+        motif += draw(st.sampled_from([[], [["pump", 1]], [["qrelease", 0], ["yield", 3]]]))
+        at = draw(st.integers(0, len(ops)))
+        ops[at:at] = motif
     return {"backend": backend, "ops": ops}
 
 
@@ -102,6 +118,7 @@ class Fanout(Sub):
         async with H.Rig(backend, file_db=True if backend == "sql" else None) as rig:
             loop = asyncio.get_running_loop()
             vexec = loop.inline_executor
+            qpool = rig.storage.query_pool if backend == "kv" else H.InlineExecutor()
             conns = {}
             seen_len = {}
             frames = {}      # conn -> list of (op index, parsed frame)
@@ -115,12 +132,30 @@ class Fanout(Sub):
             def snapshot(t):
                 for ci, c in conns.items():
                     for raw in c.out[seen_len[ci]:]:
-                        frames[ci].append((t, json.loads(raw)))
+                        f = json.loads(raw)
+                        frames[ci].append((t, f))
+                        if f[0] == "EOSE":
+                            mine = [I for I in instances if I["conn"] == ci and I["sub"] == f[1]]
+                            if mine and mine[-1]["t_eose"] is None:
+                                mine[-1]["t_eose"] = t
                     seen_len[ci] = len(c.out)
+                # the registry is the authoritative set of open subscriptions: an instance is open from the first
+                # moment it is seen there (only when the entry cannot belong to an earlier instance of that id)
+                for cid, subs in list(rig.storage.clients.items()):
+                    ci = addr2ci.get(str(cid).rsplit("-", 1)[0])
+                    for sub_id in list(subs):
+                        mine = [I for I in instances if I["conn"] == ci and I["sub"] == sub_id]
+                        if not mine:
+                            continue
+                        L = mine[-1]
+                        if L["t_reg"] is None and L["t_end_fed"] is None and all(
+                                J["t_end_settled"] is not None and J["t_end_settled"] <= L["t_fed"] for J in mine[:-1]):
+                            L["t_reg"] = t
 
             def get_conn(ci):
                 if ci not in conns:
                     conns[ci] = rig.conn("10.0.0.%d" % (ci + 1))
+                    addr2ci["10.0.0.%d" % (ci + 1)] = ci
                     seen_len[ci] = 0
                     frames[ci] = []
                 return conns[ci]
@@ -136,6 +171,7 @@ class Fanout(Sub):
                         ev["t_settled"] = t
 
             alive = {}
+            addr2ci = {}
             for t, op in enumerate(case["ops"]):
                 if op[0] in ("req", "event", "close", "disconnect"):
                     ci = op[1]
@@ -151,7 +187,7 @@ class Fanout(Sub):
                         labels.append("condition-less-filter-first")
                     if fl:
                         instances.append({"conn": ci, "sub": op[2], "filters": fl, "t_fed": t, "t_settled": None,
-                                          "t_end_fed": None, "t_end_settled": None})
+                                          "t_end_fed": None, "t_end_settled": None, "t_reg": None, "t_eose": None})
                     else:
                         labels.append("req-without-usable-filter")
                     c.feed(["REQ", op[2]] + [FILTERS[i] if i >= 0 else ({"kinds": "x"} if i == -1 else {"limit": 20})
@@ -188,6 +224,8 @@ class Fanout(Sub):
                 elif op[0] == "settle":
                     vexec.park = False
                     vexec.release_all()
+                    qpool.park = False
+                    qpool.release_all()
                     await rig.settle()
                     mark_settled(t)
                     pending_feed = False
@@ -197,6 +235,15 @@ class Fanout(Sub):
                         sched_between = sched_between or (op[1] and pending_feed)
                 elif op[0] == "release":
                     if vexec.release(op[1]):
+                        sched_between = sched_between or pending_feed
+                    for _ in range(3):
+                        await asyncio.sleep(0)
+                elif op[0] == "qpark":
+                    if backend == "kv":
+                        qpool.park = op[1]
+                        sched_between = sched_between or (op[1] and pending_feed)
+                elif op[0] == "qrelease":
+                    if qpool.release(op[1]):
                         sched_between = sched_between or pending_feed
                     for _ in range(3):
                         await asyncio.sleep(0)
@@ -211,6 +258,8 @@ class Fanout(Sub):
             T = len(case["ops"])
             vexec.park = False
             vexec.release_all()
+            qpool.park = False
+            qpool.release_all()
             await rig.settle()
             mark_settled(T)
             snapshot(T)
@@ -240,7 +289,10 @@ class Fanout(Sub):
                         mst = any(R.must_match(e, f) for f in I["filters"])
                         closed_before = I["t_end_settled"] is not None and I["t_end_settled"] <= ev["t_fed"]
                         opened_after = I["t_fed"] > ev["t_settled"]
-                        certainly = (I["t_settled"] <= ev["t_fed"] and (I["t_end_fed"] is None or I["t_end_fed"] > ev["t_settled"]))
+                        registered = I["t_settled"] <= ev["t_fed"] or (I["t_reg"] is not None and I["t_reg"] < ev["t_fed"])
+                        certainly = registered and (I["t_end_fed"] is None or I["t_end_fed"] > ev["t_settled"])
+                        if certainly and I["t_settled"] > ev["t_fed"] and I["t_eose"] is not None and I["t_eose"] > ev["t_fed"]:
+                            labels.append("accepted-while-stored-query-runs")
                         if certainly:
                             if mst:
                                 open_match += 1
@@ -442,4 +494,99 @@ class Crowd(Sub):
         return Result(viol, True, ["backend:" + backend], sample={"backend": backend, "connections": n})
 
 
-SUBCHECKS = [Fanout(), WriterWindow(), Crowd()]
+class StalledReader(Sub):
+    """one connection stops reading while its subscriptions keep matching: everybody else is unaffected"""
+
+    name = "stalled-reader"
+    examples = {"quick": 48, "thorough": 384}
+    shards = {"quick": 12, "thorough": 16}
+    rule = ("connection A opens 1..32 subscriptions over 0..30 stored events and stops reading; B holds a live "
+            "subscription; C publishes 1..40 matching events; A then resumes or disconnects; non-trivial = A's backlog "
+            "(subscriptions x (stored + EOSE + live)) exceeds 500 frames; distinct by case")
+
+    def strategy(self, tier):
+        return st.tuples(st.sampled_from(["kv", "kv", "sql"]), st.sampled_from([1, 2, 8, 20, 32]), st.sampled_from([0, 5, 30]),
+                         st.sampled_from([1, 3, 16, 40]), st.sampled_from(["resume", "disconnect", "stay"])).map(list)
+
+    def run_case(self, case):
+        return H.run(self._run, case)
+
+    async def _run(self, case):
+        backend, n_subs, n_stored, n_live, ending = case
+        viol = []
+        backlog = n_subs * (n_stored + 1 + n_live)
+        labels = ["backend:" + backend, "ending:" + ending, "backlog>500" if backlog > 500 else "backlog<=500"]
+        async with H.Rig(backend, file_db=True if backend == "sql" else None) as rig:
+            for i in range(n_stored):
+                await rig.add(E.make(i % 3, 1, E.T0 + i, [], "stored%d" % i))
+            a = rig.conn("10.0.1.1")
+            a.stall()
+            for i in range(n_subs):
+                a.feed(["REQ", "a%d" % i, {"kinds": [1]}])
+            await rig.settle()
+            b = rig.conn("10.0.1.2")
+            await b.send(["REQ", "b", {"kinds": [1], "since": E.T0 + 1000}])
+            c = rig.conn("10.0.1.3")
+            lives = [E.make(i % 3, 1, E.T0 + 1000 + i, [], "live%d" % i) for i in range(n_live)]
+            extra = []
+            if ending == "disconnect" and len(lives) > 1:
+                lives, extra = lives[:-1], lives[-1:]
+
+            async def publish(evs):
+                for i, ev in enumerate(evs):
+                    got = [f for f in [json.loads(x) for x in await c.send(["EVENT", ev])] if f[0] == "OK"]
+                    if rig.stuck:
+                        viol.append(V("%s-stalled-reader-blocks-relay" % backend,
+                                      "a connection that does not read does not affect acceptance or delivery for others",
+                                      after_events=i, waiting=rig.stuck, backlog=backlog))
+                        return False
+                    if len(got) != 1 or got[0][2] is not True:
+                        viol.append(V("%s-stalled-reader-event-not-acknowledged" % backend,
+                                      "an accepted event is acknowledged while another connection does not read",
+                                      after_events=i, frames=got))
+                        return False
+                return True
+
+            ok = await publish(lives)
+            if ok and ending == "disconnect":
+                a.feed(None)
+                await rig.settle()
+                ok = await publish(extra)
+                lives = lives + extra
+            if ok and ending == "resume":
+                a.stall(False)
+                await rig.settle()
+                for i in range(n_subs):
+                    sub = "a%d" % i
+                    fr = [f for f in a.frames() if len(f) > 1 and f[1] == sub]
+                    n_eose = sum(1 for f in fr if f[0] == "EOSE")
+                    for ev in lives:
+                        k = sum(1 for f in fr if f[0] == "EVENT" and f[2]["id"] == ev["id"])
+                        if k != 1:
+                            viol.append(V("%s-resumed-reader-delivery" % backend,
+                                          "every open matching subscription receives the event exactly once",
+                                          sub=sub, copies=k, event=_brief(ev)))
+                            break
+                    n_st = sum(1 for f in fr if f[0] == "EVENT" and f[2]["content"].startswith("stored"))
+                    if n_eose != 1 or n_st != n_stored:
+                        viol.append(V("%s-resumed-reader-stored" % backend, "stored events then one EOSE",
+                                      sub=sub, eose=n_eose, stored=n_st, expected=n_stored))
+                    if viol:
+                        break
+            if ok:
+                for ev in lives:
+                    k = sum(1 for f in b.frames() if f[0] == "EVENT" and f[1] == "b" and f[2]["id"] == ev["id"])
+                    if k != 1:
+                        viol.append(V("%s-bystander-delivery" % backend,
+                                      "every open matching subscription receives the event exactly once",
+                                      copies=k, event=_brief(ev), backlog=backlog))
+                        break
+            a.stall(False)
+            for x in (a, b, c):
+                if not x.task.done():
+                    x.feed(None)
+            await rig.settle()
+        return Result(viol, backlog > 500, labels, sample={"case": case, "backlog": backlog})
+
+
+SUBCHECKS = [Fanout(), WriterWindow(), Crowd(), StalledReader()]
